@@ -23,7 +23,8 @@
  *   results    : "#detail idx text" lines (sanitizer excerpts), one JSON summary line, then one line per
  *                input "idx verdict phase detail" only for verdicts other than a/r and for unexpected
  *                rejections of inputs that must be accepted ("x")
- * env NANOLANG_VERIF_PARSE_FUEL (hook H6): consecutive no-progress iterations allowed in a recovery loop.
+ * env NANOLANG_VERIF_PARSE_FUEL (hook H6): consecutive no-progress iterations allowed in a recovery loop;
+ * NANOLANG_VERIF_TRACE_PARSER=<file>: the hook's event sink.
  */
 #ifndef _GNU_SOURCE
 #define _GNU_SOURCE
